@@ -4,6 +4,8 @@
 -/
 import LW.Driver.Canon
 import LW.Generated.Registry
+import LW.Model.Base64
+import LW.Model.Exchange
 namespace LW.Driver
 open LW LW.Canon
 
@@ -69,6 +71,19 @@ def runOp (st : DState) (op : String) (args : List String) : DState × String :=
       | none => "ERR")
   | "phydec" => (st, withArgs args hex fun b => frameOut (PHY.dec b))
   | "phyenc" => (st, withArgs args frame fun p => bytesOut p.enc)
+  | "phycanon" => (st, withArgs args hex fun b =>
+      match PHY.dec b with
+      | .ok f => "ok " ++ fmtFrame f ++ " | " ++ (match f.enc with | .ok o => hx o | .err => "ERR" | .panic => "PANIC")
+      | .err => "ERR" | .panic => "PANIC")
+  | "phyrt" => (st, withArgs args frame fun p =>
+      match p.enc with
+      | .ok b => "ok " ++ hx b ++ " | " ++ (match PHY.dec b with | .ok f => fmtFrame f | .err => "ERR" | .panic => "PANIC")
+      | .err => "ERR" | .panic => "PANIC")
+  | "phytextenc" => (st, withArgs args frame fun p => fmtOut (fun b => "t" ++ String.ofList (Base64.encode b)) p.enc)
+  | "phytextdec" => (st, withArgs args next fun t =>
+      match Base64.decode (sdrop t 1).toList with
+      | some b => frameOut (PHY.dec b)
+      | none => "ERR")
   | "micup" => (st, withArgs args (do
         let v ← nat; let c ← nat; let dr ← nat; let ch ← nat; let fk ← key; let sk ← key; let p ← frame
         pure (v, c, dr, ch, fk, sk, p)) fun (v, c, dr, ch, fk, sk, p) =>
@@ -103,6 +118,20 @@ def runOp (st : DState) (op : String) (args : List String) : DState × String :=
   | "decja" => (st, withArgs args (do let k ← key; let p ← frame; pure (k, p)) fun (k, p) => frameOut (p.decryptJA E k))
   | "phydecodefopts" => (st, withArgs args frame fun p => frameOut (p.decodeFOpts st.reg))
   | "phydecodefrm" => (st, withArgs args frame fun p => frameOut (p.decodeFRM st.reg))
+  | "exchange" => (st, withArgs args (do
+        let v ← nat; let c ← nat; let dr ← nat; let ch ← nat; let fk ← key; let sk ← key; let ek ← key; let ak ← key
+        let t ← nat; let p ← frame
+        pure (v, c, dr, ch, fk, sk, ek, ak, t, p)) fun (v, c, dr, ch, fk, sk, ek, ak, t, p) =>
+      let lp : LinkParams := { ver := byteOfNat v, conf := BitVec.ofNat 32 c, txDr := byteOfNat dr, txCh := byteOfNat ch, fKey := fk, sKey := sk }
+      match sender E lp ek ak p with
+      | .ok bs =>
+        let fcnt : BitVec 32 := match p.payload with | some (.mac h _ _) => h.fCnt | _ => 0
+        let (lp', hi, bs') := tamperOf t lp (fcnt &&& 0xffff0000#32) bs
+        "ok " ++ hx bs' ++ " " ++ (match receiver E st.reg lp' ek ak hi bs' with
+          | .decErr => "dec-ERR" | .notData => "notdata" | .valErr => "val-ERR" | .rejected => "rejected"
+          | .acceptedFOptsErr => "accepted fopts-ERR" | .acceptedFrmErr => "accepted frm-ERR"
+          | .accepted f => "accepted " ++ fmtFrame f)
+      | .err => "ERR" | .panic => "PANIC")
   | _ => (st, badop ("unknown " ++ op))
 
 end LW.Driver
